@@ -54,7 +54,8 @@ spec fn upfailed(s: JobState) -> bool {
 }
 
 spec fn edges_in_range(dag: &GraphType, len: nat) -> bool {
-    forall|a: usize, b: usize| #![trigger dag.has_edge(a, b)] dag.has_edge(a, b) ==> a < len && b < len && a != b
+    &&& forall|a: usize, b: usize| #![trigger dag.has_edge(a, b)] dag.has_edge(a, b) ==> a < len && b < len && a != b
+    &&& forall|x: usize| #![trigger dag.nodes_set().contains(x)] dag.nodes_set().contains(x) ==> x < len
 }
 
 spec fn all_up_done(dag: &GraphType, jobs: Seq<NodeInfo>, n: usize) -> bool {
@@ -1566,4 +1567,59 @@ proof fn lemma_not_superseded(jobs: Seq<NodeInfo>, m: Map<String, usize>, pm: &V
         assert(parts(jobs[i].job_id@).contains(p));
         assert(!parts(jobs[j].job_id@).contains(p));
     }
+}
+
+proof fn lemma_add_node_ok(pre: Seq<NodeInfo>, post: Seq<NodeInfo>, m0: Map<String, usize>, m1: Map<String, usize>,
+    dag0: &GraphType, dag1: &GraphType, ready: Set<String>, cleanup: Set<String>)
+    requires
+        core_ok(pre, m0, dag0, ready, cleanup, false), pre.len() < usize::MAX,
+        post.len() == pre.len() + 1,
+        forall|i: int| 0 <= i < pre.len() ==> #[trigger] post[i] == pre[i],
+        forall|i: int| 0 <= i < pre.len() ==> (#[trigger] pre[i]).job_id@ != post[pre.len() as int].job_id@,
+        valid_id(post[pre.len() as int].job_id@),
+        pre_offer(post[pre.len() as int].state), post[pre.len() as int].history_output is None,
+        m1 == m0.insert(post[pre.len() as int].job_id, pre.len() as usize),
+        dag1.nodes_set() == dag0.nodes_set().insert(pre.len() as usize), dag1.edges() == dag0.edges(),
+    ensures core_ok(post, m1, dag1, ready, cleanup, false),
+{
+    broadcast use group_verif_axioms;
+    let n = pre.len() as int;
+    let nid = post[n].job_id;
+    assert(!m0.contains_key(nid)) by {
+        if m0.contains_key(nid) { let i = m0[nid] as int; assert(pre[i].job_id == nid); }
+    }
+    assert forall|i: int| 0 <= i < post.len() implies #[trigger] m1.contains_key(post[i].job_id)
+            && m1[post[i].job_id] == i && valid_id(post[i].job_id@) by {
+        if i < n { assert(post[i] == pre[i]); assert(m0.contains_key(pre[i].job_id)); assert(pre[i].job_id != nid); }
+    }
+    assert forall|k: String| #[trigger] m1.contains_key(k) implies m1[k] < post.len() && post[m1[k] as int].job_id == k by {
+        if k != nid { assert(m0.contains_key(k)); let i = m0[k] as int; assert(post[i] == pre[i]); }
+    }
+    assert forall|i: int| 0 <= i < post.len() implies (is_ready(#[trigger] post[i].state) <==> ready.contains(post[i].job_id)) by {
+        if i < n { assert(post[i] == pre[i]); assert(is_ready(pre[i].state) <==> ready.contains(pre[i].job_id)); }
+        else { if ready.contains(nid) { assert(m0.contains_key(nid)); } }
+    }
+    assert forall|k: String| #[trigger] ready.contains(k) implies m1.contains_key(k) by { assert(m0.contains_key(k)); }
+    assert forall|i: int| 0 <= i < post.len() implies (is_rfc(#[trigger] post[i].state) <==> cleanup.contains(post[i].job_id)) by {
+        if i < n { assert(post[i] == pre[i]); assert(is_rfc(pre[i].state) <==> cleanup.contains(pre[i].job_id)); }
+        else { if cleanup.contains(nid) { assert(m0.contains_key(nid)); } }
+    }
+    assert forall|k: String| #[trigger] cleanup.contains(k) implies m1.contains_key(k) by { assert(m0.contains_key(k)); }
+    assert forall|i: int| 0 <= i < post.len() implies out_wf_one(#[trigger] post[i]) by {
+        if i < n { assert(post[i] == pre[i]); assert(out_wf_one(pre[i])); }
+    }
+    assert forall|a: usize, b: usize| #![trigger dag1.has_edge(a, b)] dag1.has_edge(a, b) implies a < post.len() && b < post.len() && a != b by {
+        assert(dag0.has_edge(a, b));
+    }
+}
+
+/// the state add_node gives a job
+spec fn fresh_state(s: JobState) -> bool {
+    s == JobState::Always(JobStateAlways::Undetermined)
+        || s == JobState::Output(JobStateOutput::NotReady(ValidationStatus::Unknown))
+        || s == JobState::Ephemeral(JobStateEphemeral::NotReady(ValidationStatus::Unknown))
+}
+
+spec fn all_fresh(jobs: Seq<NodeInfo>) -> bool {
+    forall|i: int| 0 <= i < jobs.len() ==> fresh_state(#[trigger] jobs[i].state)
 }
